@@ -286,7 +286,7 @@ func preludeBase() string {
 	b.WriteString("(declare-sort Str 0)\n(declare-sort Flt 0)\n")
 	b.WriteString("(define-fun nilSlice () Slice (mkSlice 0 0 0 0))\n")
 	b.WriteString("(define-fun nilIface () Iface (mkIface 0 0))\n")
-	b.WriteString("(define-fun wfSlice ((s Slice)) Bool (and (<= 0 (soff s)) (<= 0 (slen s)) (<= (slen s) (scap s)) (<= 0 (sarr s)) (=> (= (sarr s) 0) (= (scap s) 0))))\n")
+	b.WriteString("(define-fun wfSlice ((s Slice)) Bool (and (<= 0 (soff s)) (<= 0 (slen s)) (<= (slen s) (scap s)) (<= (+ (soff s) (scap s)) 9223372036854775807) (<= 0 (sarr s)) (=> (= (sarr s) 0) (= (scap s) 0))))\n")
 	for _, w := range []int{8, 16, 32, 64} {
 		m := pow2str[w]
 		h := pow2str[w-1]
@@ -495,9 +495,9 @@ func (ss *Sorts) zero(t types.Type) string {
 		}
 		return "0"
 	case *types.Slice:
-		return "nilSlice"
+		return "(mkSlice 0 0 0 0)"
 	case *types.Interface:
-		return "nilIface"
+		return "(mkIface 0 0)"
 	case *types.Struct:
 		name := ss.structSort(t, u)
 		args := []string{}
